@@ -436,3 +436,62 @@ pub fn c06_relation(args: &Args, s: &mut Summary) {
     }
     s.sample(json!({"runs": runs, "lines_per_run": nlines}));
 }
+
+
+/// SectionOrder: [General] blocks between timing lines
+pub fn order_replay(args: &Args, s: &mut Summary) {
+    let mut rng = Rng::new(args.seed);
+    let mut alpha: Vec<Value> = vec![];
+    let tm = Tau;
+    args.for_each_case(|_, c| {
+        if let Some(a) = c.get("alpha") {
+            alpha = a.as_array().unwrap().clone();
+            return;
+        }
+        s.cases += 1;
+        let lines: Vec<&Value> = geta(&c, "h").iter().map(|k| &alpha[k.as_u64().unwrap() as usize - 1]).collect();
+        let gh = geta(&c, "gh");
+        if !gh.is_empty() && !lines.is_empty() {
+            s.nontrivial_key(&format!("{}|{}|{}", c["g0"], c["gh"], c["h"]));
+        }
+        let general_block = |g: &Value| {
+            let gl = general_lines(g);
+            format!("[General]\n{}\n{}\n{}\n", gl[0], gl[1], gl[2])
+        };
+        let mut text = String::from("osu file format v14\n\n");
+        text.push_str(&general_block(&c["g0"]));
+        text.push_str("\n[TimingPoints]\n");
+        for (j, l) in lines.iter().enumerate() {
+            for sw in gh {
+                if geti(sw, "at") as usize == j {
+                    text.push_str(&general_block(&sw["g"]));
+                    text.push_str("[TimingPoints]\n");
+                }
+            }
+            text.push_str(&spell_line(l, &tm, &mut rng));
+            text.push('\n');
+        }
+        for sw in gh {
+            if geti(sw, "at") as usize == lines.len() {
+                text.push_str(&general_block(&sw["g"]));
+            }
+        }
+        let r = guarded(&format!("order replay {text:?}"), || {
+            (rosu_map::from_str::<TimingPoints>(&text).map(|t| proj_cp(&t.control_points, &tm)),
+             rosu_map::from_str::<Beatmap>(&text).map(|t| proj_cp(&t.control_points, &tm)))
+        });
+        s.checks += 2;
+        match r {
+            Err(p) => s.mismatch("panic", json!({"text": text, "panic": p})),
+            Ok((Ok(a), Ok(b))) => {
+                if a != c["cp"] {
+                    s.mismatch("control-points:general-between-lines", json!({"text": text, "got": a, "want": c["cp"]}));
+                } else if b != c["cp"] {
+                    s.mismatch("control-points-via-Beatmap:general-between-lines", json!({"text": text, "got": b, "want": c["cp"]}));
+                }
+            }
+            Ok(_) => s.mismatch("io-error", json!({"text": text})),
+        }
+        s.sample(json!({"text": text, "cp": c["cp"]}));
+    });
+}
